@@ -276,10 +276,98 @@ pub fn c08(rep: &mut Report) {
         run_cfg::<u32>(rep, c, Limits::new(200, 200_000, 20.0), false);
     }
     c08_extremes(rep);
+    c08_adoption(rep);
     for f in ["c08.acquire", "c08.register-ok", "c08.register-refused", "c08.release-call", "c08.released", "c08.release-on-close", "pub.refused", "sub.refused", "sub.sent", "suback.matching", "suback.unexpected", "session.clean-start", "session.resumed", "c08.scripted-exhaustion"] {
         rep.floor(f, 1);
     }
     rep.assume("the application releases only identifiers it holds itself; an identifier acquired for a send is used for exactly that one send");
+}
+
+/// A server created with an undetermined version holds the identifiers of everything that was restored into
+/// it; when the first CONNECT fixes the version, the entries of the other version go. Exhaustive over exports
+/// of <= 3 entries over {PUBLISH QoS 1, PUBLISH QoS 2, PUBREL} x {v3.1.1, v5.0} on distinct ids x adopting
+/// version x clean start: an identifier that was in use before the CONNECT and is free after it has been
+/// announced in that step (unless the CONNECT starts a new session: wholesale reset), nothing else is
+/// announced, and nothing twice.
+fn c08_adoption(rep: &mut Report) {
+    use crate::bridge;
+    use crate::conn::{ConnBox, Ev};
+    use crate::refcodec::{self as rc, AP};
+    use crate::report::Violation;
+    use mqtt_protocol_core::mqtt::packet::{GenericPacket, GenericStorePacket};
+    let mk = |k: (u8, u32, Ver)| -> GenericStorePacket<u16> {
+        let p: GenericPacket<u16> = if k.0 == 3 {
+            bridge::build::<u16>(&AP::Ack { ver: k.2, kind: AckKind::Pubrel, pid: k.1, code: None, props: None }).ok().unwrap()
+        } else {
+            bridge::build::<u16>(&AP::Publish { ver: k.2, dup: true, qos: k.0, retain: false, topic: b"a".to_vec(), pid: Some(k.1), props: vec![], payload: b"p".to_vec() }).ok().unwrap()
+        };
+        match p {
+            GenericPacket::V3_1_1Publish(x) => GenericStorePacket::V3_1_1Publish(x),
+            GenericPacket::V5_0Publish(x) => GenericStorePacket::V5_0Publish(x),
+            GenericPacket::V3_1_1Pubrel(x) => GenericStorePacket::V3_1_1Pubrel(x),
+            GenericPacket::V5_0Pubrel(x) => GenericStorePacket::V5_0Pubrel(x),
+            _ => unreachable!(),
+        }
+    };
+    // entry i of an export uses identifier i + 1
+    let shapes: Vec<(u8, Ver)> = vec![(1, Ver::V4), (1, Ver::V5), (2, Ver::V4), (2, Ver::V5), (3, Ver::V4), (3, Ver::V5)];
+    let mut exports: Vec<Vec<(u8, u32, Ver)>> = vec![];
+    for a in 0..shapes.len() {
+        exports.push(vec![(shapes[a].0, 1, shapes[a].1)]);
+        for b in 0..shapes.len() {
+            exports.push(vec![(shapes[a].0, 1, shapes[a].1), (shapes[b].0, 2, shapes[b].1)]);
+            for c in 0..shapes.len() {
+                exports.push(vec![(shapes[a].0, 1, shapes[a].1), (shapes[b].0, 2, shapes[b].1), (shapes[c].0, 3, shapes[c].1)]);
+            }
+        }
+    }
+    let mut n = 0u64;
+    let mut dropped = 0u64;
+    for ver in VERS {
+        for clean in [false, true] {
+            for ex in &exports {
+                n += 1;
+                let ex2 = ex.clone();
+                let r = crate::util::guarded(move || -> Result<u64, String> {
+                    let mut u = ConnBox::<u16>::new(RoleK::Server, None);
+                    u.restore_packets(ex2.iter().map(|k| mk(*k)).collect());
+                    let used_before: Vec<u32> = (1..=4u32).filter(|id| u.clone().register(*id).is_err()).collect();
+                    let (l, _) = u.recv_all(&rc::encode(&ConnProf::basic(clean).ap(ver), 2));
+                    let evs: Vec<Ev> = l.into_iter().flatten().collect();
+                    let used_after: Vec<u32> = (1..=4u32).filter(|id| u.clone().register(*id).is_err()).collect();
+                    let announced: Vec<u32> = evs.iter().filter_map(|e| if let Ev::Released(x) = e { Some(*x) } else { None }).collect();
+                    let mut d = 0;
+                    for id in 1..=4u32 {
+                        let (b, a) = (used_before.contains(&id), used_after.contains(&id));
+                        let k = announced.iter().filter(|x| **x == id).count();
+                        if k > 1 {
+                            return Err(format!("identifier {id} announced {k} times in one step"));
+                        }
+                        if k == 1 && !(b && !a) {
+                            return Err(format!("release of identifier {id} announced although it was {} before and is {} after the CONNECT", if b { "in use" } else { "free" }, if a { "in use" } else { "free" }));
+                        }
+                        if b && !a {
+                            d += 1;
+                            if k == 0 && !clean {
+                                return Err(format!("identifier {id} was in use before the CONNECT (restored entry of the other protocol version), is free after it, and no release was announced; no new session starts in this step"));
+                            }
+                        }
+                    }
+                    Ok(d)
+                });
+                let hist = vec![serde_json::json!(format!("Server(Undetermined): restore_packets({ex:?}) (kind 1/2 = PUBLISH QoS, 3 = PUBREL; id; version); recv CONNECT {ver:?} clean={clean}"))];
+                match r {
+                    Err(m) => rep.violation(Violation { rule: "c08.adoption".into(), sig: format!("c08.adoption|panic|{}", crate::util::panic_sig(&m)), detail: format!("panic: {m}"), config: "c08 version adoption with a restored store".into(), history: hist }),
+                    Ok(Err(t)) => rep.violation(Violation { rule: "c08.adoption".into(), sig: format!("c08.adoption|{}|v{}", if t.contains("no release was announced") { "unannounced" } else if t.contains("times") { "twice" } else { "spurious" }, ver.level()), detail: t, config: "c08 version adoption with a restored store".into(), history: hist }),
+                    Ok(Ok(d)) => dropped += d,
+                }
+            }
+        }
+    }
+    rep.count("c08.adoption-scripts", n);
+    rep.count("c08.adoption-dropped-ids", dropped);
+    rep.add_cov("traces_validated_against_impl", n);
+    rep.floor("c08.adoption-dropped-ids", 100);
 }
 
 /// Scripted single-path extremes: exhaust all 65 535 ids, release one, re-acquire; u32 extremes.
